@@ -43,7 +43,8 @@ def make_spec(g, allow):
                 calls.append((cfgno, Call('sajson', bad, r.choice(['s', 'b', 'vraw']) if bad else 's')))
         execs.append((n, calls))
     return dict(cfgs=cfgs, execs=execs, flags={'pct'} if any(b'%' in n for n in names) else set(),
-                reps=r.choice([1, 2]), upd=r.choice([(False, 'true'), (False, '')]), decoys=r.random() < 0.5 and sum(len(c) for _, c in execs) <= 6)
+                reps=r.choice([1, 2, 3, 3, 4]),   # executions of every test in one process (-count=N): each addresses files 1..n again
+                 upd=r.choice([(False, 'true'), (False, '')]), decoys=r.random() < 0.5 and sum(len(c) for _, c in execs) <= 6)
 
 
 def ordinal_key(spec, cfgno, c):
